@@ -395,14 +395,17 @@ pub fn market_script<W: Write>(w: &mut W, st: &mut EStats, id: u64, t: &mut dyn 
     let a_n = t.assets();
     let mut run = ERun::begin(w, st, id, t, l, seed, t0, 0, trading, ticks, rng);
     let mut now = t0;
+    // extreme mode: a few huge volumes, mirrored prices (tick dividing 2^32-1), clock jumps across multiples of 2^32
+    let extreme = g.chance(1, 5);
     for _ in 0..len {
         if run.dead { break; }
         let a = g.below(a_n as u64) as usize;
         let n = t.n_orders(a);
         let tick = ticks[a];
-        let pr = |g: &mut Sm| (8 + g.below(6) as u32) * tick;
+        let pr = |g: &mut Sm| { let p = (8 + g.below(6) as u32) * tick; if extreme && u32::MAX % tick == 0 && g.chance(1, 4) { u32::MAX - p } else { p } };
         let op = match g.below(100) {
-            0..=39 => EOp::Direct(a, Op::CreatePlace { bid: g.chance(1, 2), vol: 1 + g.below(5) as u32, trader: g.below(4) as u32, price: Some(pr(g)) }),
+            0..=39 => { let vol = if extreme && g.chance(1, 8) { *g.pick(&[(1u32 << 31) - 1, 1u32 << 31, 3_000_000_000]) } else { 1 + g.below(5) as u32 };
+                EOp::Direct(a, Op::CreatePlace { bid: g.chance(1, 2), vol, trader: g.below(4) as u32, price: Some(pr(g)) }) }
             40..=46 => EOp::Direct(a, Op::CreatePlace { bid: g.chance(1, 2), vol: 1 + g.below(5) as u32, trader: 5, price: None }),
             47..=52 => EOp::Direct(a, Op::Create { bid: g.chance(1, 2), vol: 1 + g.below(5) as u32, trader: 6, price: Some(pr(g)) }),
             53..=58 if n > 0 => EOp::Direct(a, if g.chance(1, 2) { Op::Place(g.below(n as u64) as usize) } else { Op::EvNew(g.below(n as u64) as usize) }),
@@ -414,7 +417,7 @@ pub fn market_script<W: Write>(w: &mut W, st: &mut EStats, id: u64, t: &mut dyn 
             83..=85 => EOp::Direct(a, Op::CreatePlace { bid: g.chance(1, 2), vol: 2, trader: 9, price: Some(pr(g) + if tick > 1 { 1 } else { 0 }) }),
             86..=88 => if g.chance(1, 2) { EOp::Disable } else { EOp::Enable },
             89..=90 => EOp::ResetTvols,
-            _ => { now += g.below(3); EOp::SetTime(now) }
+            _ => { now += if extreme && g.chance(1, 4) { (1u64 << 32) - g.below(3) } else { g.below(3) }; EOp::SetTime(now) }
         };
         run.op(t, rng, &op);
     }
